@@ -233,6 +233,72 @@ func init() {
 		if perr != nil {
 			return perr
 		}
+		// 5. transport.go: the expiry callback of packetHandlerMap.ReplaceWithClosed deletes an ID only under
+		//    `if h.handlers[id] == handler`
+		tf, err := parse("transport.go")
+		if err != nil {
+			return err
+		}
+		guarded, unguarded, seen := false, false, false
+		for _, d := range tf.Decls {
+			fd, ok := d.(*ast.FuncDecl)
+			if !ok || fd.Recv == nil || fd.Body == nil || fd.Name.Name != "ReplaceWithClosed" {
+				continue
+			}
+			seen = true
+			isDelete := func(st ast.Stmt) bool {
+				es, ok := st.(*ast.ExprStmt)
+				if !ok {
+					return false
+				}
+				ce, ok := es.X.(*ast.CallExpr)
+				if !ok {
+					return false
+				}
+				id, ok := ce.Fun.(*ast.Ident)
+				return ok && id.Name == "delete"
+			}
+			ast.Inspect(fd.Body, func(nd ast.Node) bool {
+				fl, ok := nd.(*ast.FuncLit) // the time.AfterFunc callback
+				if !ok {
+					return true
+				}
+				ast.Inspect(fl.Body, func(n2 ast.Node) bool {
+					switch x := n2.(type) {
+					case *ast.IfStmt:
+						be, ok := x.Cond.(*ast.BinaryExpr)
+						if ok && be.Op == token.EQL {
+							ix, iok := be.X.(*ast.IndexExpr)
+							rh, rok := be.Y.(*ast.Ident)
+							if iok && rok && rh.Name == "handler" {
+								if se, ok := ix.X.(*ast.SelectorExpr); ok && se.Sel.Name == "handlers" {
+									for _, st := range x.Body.List {
+										if isDelete(st) {
+											guarded = true
+										}
+									}
+									return false
+								}
+							}
+						}
+					case *ast.RangeStmt:
+						for _, st := range x.Body.List {
+							if isDelete(st) {
+								unguarded = true
+							}
+						}
+					}
+					return true
+				})
+				return false
+			})
+		}
+		if !seen {
+			return fmt.Errorf("transport.go: packetHandlerMap.ReplaceWithClosed not found")
+		}
+		w.P("/-- transport.go `ReplaceWithClosed`: the expiry callback deletes an ID only under `if h.handlers[id] == handler` -/")
+		w.P("def expiryDeletesOnlyOwnHandler : Bool := %v", guarded && !unguarded)
+
 		w.P("/-- u_parrot.go: every `tls.ActiveConnectionIDLimit(n)` of the built-in QUIC specs (a spec without it advertises the default) -/")
 		w.P("def parrotAdvertisedLimits : List Int := [%s]", strings.Join(parrot, ", "))
 		return nil
